@@ -62,7 +62,14 @@ pub mod rsapool {
     }
     pub fn rsa2048() -> &'static Vec<Vec<u8>> {
         static P: OnceLock<Vec<Vec<u8>>> = OnceLock::new();
-        P.get_or_init(|| load("rsa2048", 6))
+        // six keys with the usual exponent 65537 and three with e = 3, 17, 257 (accepted by the library)
+        P.get_or_init(|| {
+            let mut v = load("rsa2048", 6);
+            for e in ["rsa2048e3", "rsa2048e17", "rsa2048e257"] {
+                v.extend(load(e, 1));
+            }
+            v
+        })
     }
     pub fn rsa4096() -> &'static Vec<Vec<u8>> {
         static P: OnceLock<Vec<Vec<u8>>> = OnceLock::new();
@@ -205,6 +212,21 @@ impl Payload for RawX {
     }
     fn decode(payload: &[u8]) -> Result<Self, Box<dyn Error + Send + Sync>> {
         Ok(RawX(payload.to_vec()))
+    }
+}
+
+/// identity payload whose encoding suffix is not ASCII: header "v4é.local." (length in bytes != chars)
+#[derive(Clone, Debug, PartialEq, Eq)]
+pub struct RawU(pub Vec<u8>);
+
+impl Payload for RawU {
+    const SUFFIX: &'static str = "\u{e9}\u{30c7}";
+    fn encode(self, mut writer: impl WriteBytes) -> Result<(), Box<dyn Error + Send + Sync>> {
+        writer.write(&self.0);
+        Ok(())
+    }
+    fn decode(payload: &[u8]) -> Result<Self, Box<dyn Error + Send + Sync>> {
+        Ok(RawU(payload.to_vec()))
     }
 }
 
@@ -353,6 +375,13 @@ impl<B: Backend> KeyPair<B> {
     pub fn seal_t<M: Payload, F: paseto_core::encodings::Footer>(&self, msg: M, footer: F, aad: &[u8]) -> Result<String, PasetoError> {
         match self {
             KeyPair::Local(k) => UnencryptedToken::<B, M>::new(msg).with_footer(footer).encrypt_with_aad(k, aad).map(|t| t.to_string()),
+            KeyPair::Public(sk, _) => UnsignedToken::<B, M>::new(msg).with_footer(footer).sign_with_aad(sk, aad).map(|t| t.to_string()),
+        }
+    }
+    /// local: with a caller-supplied nonce; public: plain signing
+    pub fn seal_nonce_t<M: Payload, F: paseto_core::encodings::Footer>(&self, nonce: &[u8], msg: M, footer: F, aad: &[u8]) -> Result<String, PasetoError> {
+        match self {
+            KeyPair::Local(k) => UnencryptedToken::<B, M>::new(msg).with_footer(footer).dangerous_seal_with_nonce(k, aad, nonce.to_vec()).map(|t| t.to_string()),
             KeyPair::Public(sk, _) => UnsignedToken::<B, M>::new(msg).with_footer(footer).sign_with_aad(sk, aad).map(|t| t.to_string()),
         }
     }
